@@ -18,8 +18,12 @@ import sys
 import time
 
 ROOT = os.path.dirname(os.path.abspath(__file__))
-HARNESS = os.path.join(ROOT, "harness")
-OUT = os.path.join(ROOT, "out")
+# Development-time overrides (seeded-mutation evaluation runs the same driver
+# against a scratch copy of the harness whose go.mod points at a mutated copy
+# of the repository, without touching /repo, /verif/out or /verif/evidence).
+HARNESS = os.environ.get("VERIF_HARNESS_DIR") or os.path.join(ROOT, "harness")
+OUT = os.environ.get("VERIF_OUT_DIR") or os.path.join(ROOT, "out")
+EVIDENCE = os.environ.get("VERIF_EVIDENCE_DIR") or os.path.join(ROOT, "evidence")
 BIN = os.path.join(OUT, "bin")
 LEDGER = os.path.join(ROOT, "known_findings.json")
 
@@ -136,7 +140,7 @@ def merge_hashes(outdir):
 
 
 def write_evidence(prop, cfg, tier, seed, outdir, wall, violations, known, regressions, extra_notes):
-    ev_dir = os.path.join(ROOT, "evidence")
+    ev_dir = EVIDENCE
     os.makedirs(ev_dir, exist_ok=True)
     evaluations = 0
     disjoint = 0
